@@ -1646,6 +1646,10 @@ class NetCDFRead(IORead):
             if featureType is not None:
                 g["featureType"] = featureType
 
+                # The sample dimension of each count variable, keyed
+                # by the dimension that the count variable spans
+                contiguous = {}
+
                 sample_dimension = None
                 for ncvar, attributes in variable_attributes.items():
                     if "sample_dimension" not in attributes:
@@ -1671,10 +1675,17 @@ class NetCDFRead(IORead):
                         self._parse_ragged_contiguous_compression(
                             ncvar, sample_dimension
                         )
+                        contiguous[
+                            g["variable_dimensions"][ncvar][0]
+                        ] = sample_dimension
 
                         # Do not attempt to create a field from a
                         # count variable
                         g["do_not_create_field"].add(ncvar)
+
+                # The instance dimension of each index variable, keyed
+                # by the dimension that the index variable spans
+                indexed = {}
 
                 instance_dimension = None
                 for ncvar, attributes in variable_attributes.items():
@@ -1701,17 +1712,23 @@ class NetCDFRead(IORead):
                         self._parse_indexed_compression(
                             ncvar, instance_dimension
                         )
+                        indexed[
+                            g["variable_dimensions"][ncvar][0]
+                        ] = instance_dimension
 
                         # Do not attempt to create a field from a
                         # index variable
                         g["do_not_create_field"].add(ncvar)
 
-                if (
-                    sample_dimension is not None
-                    and instance_dimension is not None
-                ):
+                for ncdim, sample_dimension in contiguous.items():
+                    instance_dimension = indexed.get(ncdim)
+                    if instance_dimension is None:
+                        continue
+
                     # ------------------------------------------------
-                    # There are DSG indexed contiguous ragged arrays
+                    # A count variable and an index variable span the
+                    # same dimension: A DSG indexed contiguous ragged
+                    # array
                     # ------------------------------------------------
                     self._parse_indexed_contiguous_compression(
                         sample_dimension, instance_dimension
